@@ -337,7 +337,7 @@ Proof.
   2:{ intros E; inversion E; subst; clear E. exists [].
       split; [assumption|]. split; [reflexivity|].
       split; [rewrite fifo_write_nil by lia; assumption|].
-      split; [symmetry; exact D0|]. rewrite zlen_nil.
+      split; [symmetry; exact D0|]. change (zlen (@nil byte)) with 0.
       split; [lia|]. split; [lia|]. split; [lia|]. split; [assumption|]. split; [assumption|]. split; [assumption|].
       split; [|auto].
       intros bs _ Hw. unfold writer_len in El. rewrite O1, Hw in El. discriminate. }
@@ -359,13 +359,14 @@ Proof.
   - intros E; inversion E; subst; clear E. assert (w = []) by (apply zlen_0_nil; lia). subst w.
     exists []. split; [assumption|]. split; [assumption|].
     split; [rewrite fifo_write_nil by lia; assumption|].
-    split; [symmetry; exact D0|]. rewrite zlen_nil.
+    split; [symmetry; exact D0|]. change (zlen (@nil byte)) with 0.
     split; [lia|]. split; [intros _; apply W8; lia|]. split; [lia|].
     split; [assumption|]. split; [assumption|]. split; [assumption|]. split; [|exact W10].
     intros bs Hs Hw. destruct (W9 bs Hs) as (W91 & _). lia.
-  - intros E; inversion E; subst; clear E. exists w.
-    pose proof (commit_spec cb1 (len' - nleft') i_dst data' w I1 ltac:(lia) W1 W3 W4) as C.
-    rewrite <- W1 in C at 1. specialize (C W5). rewrite <- W1 in C at 1. specialize (C W6).
+  - intros E; inversion E; subst cb' ret d src' nfree; clear E. exists w.
+    assert (Hpos : 0 < len' - nleft') by lia.
+    rewrite W1 in W5, W6.
+    pose proof (commit_spec cb1 (len' - nleft') i_dst data' w I1 Hpos W1 W3 W4 W5 W6) as C.
     cbv zeta in C. destruct C as (K1 & K2 & K3 & K4 & K5 & K6 & K7).
     split; [assumption|]. split; [assumption|].
     assert (FW : fifo_write (cb_size cb1) (abs cb) w = fifo_write (cb_maxsize cb) (abs cb) w
@@ -422,7 +423,7 @@ Proof.
   { intros r Hr. exists []. split; [assumption|]. split; [reflexivity|].
     split; [rewrite fifo_write_nil by lia; reflexivity|].
     split; [symmetry; apply fifo_dropped_nil; lia|].
-    rewrite zlen_nil. repeat split; lia. }
+    change (zlen (@nil byte)) with 0. repeat split; lia. }
   destruct (len <? -1) eqn:E1; [apply Z.ltb_lt in E1 | apply Z.ltb_ge in E1].
   { intros E; inversion E; subst; clear E. apply Z0. lia. }
   set (l := if len =? -1 then (if cb_size cb - cb_used cb =? 0 then CBUF_CHUNK else cb_size cb - cb_used cb) else len).
@@ -432,7 +433,7 @@ Proof.
   apply writer_spec in Ew; [|assumption|lia|exact I].
   destruct Ew as (w & W1 & W2 & W3 & W4 & W5 & W6 & W7 & W8 & W9 & W10 & W11 & W12).
   destruct s1 as [bs1|fd1]; [destruct (W12 I)|].
-  intros E; inversion E; subst; clear E. exists w. cbn [src_bytes] in W2.
+  intros E; inversion E; subst cb' ret d fd'; clear E. exists w. cbn [src_bytes] in W2.
   split; [assumption|]. split; [assumption|]. split; [assumption|]. split; [assumption|].
   split; [assumption|]. split; [assumption|]. split; assumption.
 Qed.
